@@ -535,6 +535,20 @@ fn main() {
             run(&mut ctx, "g-clustered-three", &s, u, &[Builder::Push]);
         }
     }
+    // (h) size class: tens of thousands of elements, so that the selection structures on the upper bits get
+    // many inventory entries and entries of the wider span classes (a dense run followed by an outlier, two
+    // distant clusters, an arithmetic progression with a loose u)
+    let hn: &[usize] = if t { &[22_000, 40_000, 70_001, 140_000] } else { &[40_000, 70_001] };
+    for &n in hn {
+        let dense_outlier: Vec<usize> = (0..n - 1).chain([n * 600]).collect();
+        run(&mut ctx, "h-large-dense-then-outlier", &dense_outlier, n * 600, &[Builder::Push]);
+        let half = n / 2 + 13;
+        let two: Vec<usize> = (0..half).map(|i| i / 4).chain((0..n - half).map(|i| 40 * n + i * 43)).collect();
+        let u = *two.last().unwrap();
+        run(&mut ctx, "h-large-two-clusters", &two, u + 5, &[Builder::Push, Builder::ConcurrentReverse]);
+        let arith: Vec<usize> = (0..n).map(|i| 7 + i * 5).collect();
+        run(&mut ctx, "h-large-arithmetic-loose-u", &arith, 64 * 5 * n, &[Builder::Extend]);
+    }
     if prop == "C03" {
         invalid_pushes(&mut ctx);
         invalid_slices(&mut ctx);
